@@ -542,7 +542,7 @@ class LegacyOpensslVersion(Version):
         return self.__gt__(other) or self.__eq__(other)
 
     def is_prerelease(self):
-        return self.patch.startswith(("-beta", "-alpha"))
+        return self.patch.startswith(("-beta", "-alpha", "-pre"))
 
 
 class OpensslVersion(Version):
